@@ -36,6 +36,9 @@ def check(ctx):
     configs = ["native"] if ctx.tier == "quick" else ["native", "portable", "native-rel", "portable-rel"]
     for cfg in configs:
         check_config(ctx, ctx.facts(cfg), "" if cfg == "native" else "@" + cfg, cfg)
+    if ctx.tier == "thorough":
+        import poscontrol
+        poscontrol.run(ctx, "C10")
 
 
 def project(t, names):
@@ -309,6 +312,18 @@ def check_config(ctx, F, tag, cfg):
     # ---------------- R6 the two pending candidates of sparse_vector::Iter fall back on each other
     check_two_ended_candidates(ctx, F, tag)
 
+    # ---------------- R7 an iterator handed on after a scan loop that consumed the item it stopped at
+    # instances confirmed by reading: find_zero_run documents "(run rank, one_iter past the run)" -- its receivers read the item
+    # that ends the run from the iterator. (RLVector::select_zero_iter also returns its scan iterator, but there the consumed run
+    # is the one searched for and ZeroIter is defined to start after it: not an instance.)
+    SCANS = {"sparse_vector::SparseVector::find_zero_run"}
+    for fn in SCANS:
+        F.body(fn)
+    hits = [h for h in consumed_then_handed_on(F) if h[0] in SCANS]
+    ctx.ob("C10.R7.no-iterator-handed-on-past-a-rejected-item", "find_zero_run" + tag, "src/sparse_vector.rs", not hits, "dataflow",
+           "iterators returned after a `while let Some(x) = it.next() { if accept(x) {..} else { break } }` scan (the rejected item is lost to the "
+           "receiver; a snapshot taken on acceptance is what must be returned): %s" % hits[:4], nontrivial=False)
+
     # ---------------- R3 nth clamp (C09 restricted to iterator entry points) + twins
     entries, an = c09.run_analysis(F)
     for fn in sorted(entries):
@@ -410,3 +425,53 @@ def check_two_ended_candidates(ctx, F, tag):
                    field, other[field], bool(fb), later, bad))
         ctx.count("two-ended-candidate-sites" + tag)
     ctx.floor("two-ended-candidate-sites" + tag, 3)
+
+
+def consumed_then_handed_on(F):
+    """[(function, where)]: a local iterator `it` is advanced by `it.next()` inside a loop, the loop is left from the arm in which
+    `next()` returned Some (so that item has been consumed and rejected), and afterwards `it` itself -- not a clone taken earlier --
+    is moved into the function's return value."""
+    from facts import resolve_ref_local
+    hits = []
+    for b in F.all_bodies():
+        if "::tests::" in b.name or b.name.startswith("internal::"):
+            continue
+        loops = b.loop_blocks()
+        if not loops:
+            continue
+        for bi, t in b.calls():
+            if t["callee"].get("def") != "std::iter::Iterator::next" or bi not in loops or t.get("target") is None or t["dest"]["p"]:
+                continue
+            it = resolve_ref_local(b, t["args"][0])
+            if it is None or 1 <= it <= b.nargs:
+                continue
+            sw = b.blocks[t["target"]]["term"]
+            if sw["t"] != "switch":
+                continue
+            some = [d for v, d in sw["targets"] if int(v) == 1]
+            if not some:
+                continue
+            inside = b.reach_from(some, avoid={bi})
+            exits = {x for x in inside if x not in loops}
+            if not exits:
+                continue
+            after = b.reach_from(sorted(exits), avoid={bi})
+            # does `it` flow by move / copy into _0 after the exit?
+            carried = {it}
+            changed = True
+            while changed:
+                changed = False
+                for x in sorted(after):
+                    for st in b.blocks[x]["stmts"]:
+                        if st["s"] != "assign" or st["lhs"]["p"]:
+                            continue
+                        rv = st["rv"]
+                        ops = [rv["o"]] if rv["r"] == "use" else (rv["ops"] if rv["r"] == "agg" else [])
+                        for o in ops:
+                            q = operand_place(o)
+                            if q is not None and not q["p"] and q["l"] in carried and st["lhs"]["l"] not in carried:
+                                carried.add(st["lhs"]["l"])
+                                changed = True
+            if 0 in carried:
+                hits.append((b.name, loc(t["sp"])))
+    return hits
